@@ -64,6 +64,8 @@ type RunCfg struct {
 	WTime     int
 	Crashes   []CrashSpec
 	JobFaults map[string]string
+	SplitFiles bool // write the program as call file + included declarations
+	RestartTransform string
 	ExtraFiles bool
 	ChunkRes   bool // splits return per-chunk resource requests
 	SlowLabel string // tasks whose label contains this get SlowDiv times less weight
@@ -317,6 +319,13 @@ func NewRun(cfg *RunCfg) *Run {
 }
 
 func (r *Run) writeProgram(p *Prog) error {
+	if r.Cfg.SplitFiles {
+		tr := ""
+		if r.Inc > 1 {
+			tr = r.Cfg.RestartTransform
+		}
+		return r.writeSplit(p, tr)
+	}
 	os.MkdirAll(r.MroDir, 0755)
 	if err := os.WriteFile(path.Join(r.MroDir, "stagebin"), []byte("#!/bin/false\n"), 0755); err != nil {
 		return err
